@@ -468,6 +468,12 @@ F_HAND = [
     (16384, "c0:m2,s16384 p0:0:ok"),
     (32768, "c0:m2,s32768 p0:1:ok p0:0:ok"),
     (300, "c0:m256,s300 t h0:m7 t p0:0:ok"),
+    # the peer asks US (a magnet download rejects); requests split across TCP segments: header / body in
+    # different read events, then more requests (round-2 seed 3: the reply must still be scheduled)
+    (40000, "c0:m3,s40000 q0:0 q0:1,2,3 q0:0:split11 q0:1,2 q0:5:split3 q0:1,2:split40 q0:7"),
+    (300, "c0:m0,s300 q0:0 h0:m4 q0:1:split20 q0:2"),
+    (40000, "c0:m3,s40000 q0:0:split11 q0:1 q0:2"),
+    (40000, "c0:m3,s40000 q0:0:split5 q0:1,2:split7 q0:3:split33 q0:4,5,6"),
 ]
 
 
@@ -497,8 +503,14 @@ def gen_fetcher(r, size):
         if c < 0.8:
             p = r.randrange(0, n) if r.random() < 0.9 else r.choice([n, n + 1, 99999])
             ops.append("p%d:%d:%s" % (i, p, r.choice(kinds)))
-        elif c < 0.88:
+        elif c < 0.84:
             ops.append("j%d:%d" % (i, r.randrange(0, n + 1)))
+        elif c < 0.9:
+            k = r.choice([1, 1, 2, 3])
+            q = "q%d:%s" % (i, ",".join(str(r.choice([0, 1, n, 5, -1, 99999])) for _ in range(k)))
+            if r.random() < 0.6:
+                q += ":split%d" % r.choice([1, 3, 4, 5, 6, 7, 11, 20, 33, 40, 45])
+            ops.append(q)
         elif c < 0.95:
             ops.append("t")
         else:
@@ -523,6 +535,8 @@ def gen_f(seed, tier):
     return cases
 
 
+C_SNAP = re.compile(r"C(\d)\[([^\]]*)\]")
+J_RE = re.compile(r"J(\d)\(id=(\d+),piece=(-?\d+)\)")
 F_SNAP = re.compile(r"F\[size=(\d+) chunk=(\d+) done=(\d) have=(\d+) file=(\S+)\]")
 Q_RE = re.compile(r"Q(\d)\(id=(\d+),piece=(-?\d+)\)")
 
@@ -560,6 +574,8 @@ def fetch_model_input(case, impl):
 def oracle_f(case, impl):
     """magnet_completes_only_verified + ext ids of the requests, on the implementation's output"""
     viol = []
+    if impl == "HANG":
+        return [("hang", "the implementation did not finish this case within the per-case watchdog (30 s)")]
     if "ERR:" in impl or impl.startswith("CRASH") or impl in ("MISSING", "BADCASE"):
         return [("crash", "implementation outcome %s" % impl[-160:])]
     info, _, _ = parse_head(case[2:].split("|")[0])
@@ -572,6 +588,28 @@ def oracle_f(case, impl):
             for f in opname[3:].split(","):
                 if len(f) >= 2 and f[0] == "m":
                     adv.setdefault(i, []).append(int(f[1:]))
+        # reads_resume on the metadata connection: at quiescence a connection is in the read set with nothing
+        # pending, and every request of the peer got its reply
+        for m in C_SNAP.finditer(seg):
+            kv = dict(t.split("=", 1) for t in m.group(2).split() if "=" in t)
+            if kv.get("rd") == "0" and kv.get("pend", "0") == "0":
+                viol.append(("read-suspended-forever", "after '%s' metadata connection %s is out of the read set with nothing pending" % (opname, m.group(1))))
+            if kv.get("pend") == "1" and kv.get("wr") == "0":
+                viol.append(("pending-not-scheduled", "after '%s' metadata connection %s has a reply pending but is not in the write set%s" % (
+                    opname, m.group(1), " nor in the read set: the peer is unread and unanswered" if kv.get("rd") == "0" else "")))
+        if opname[:1] == "q":
+            i = int(opname[1])
+            conn_alive = ("C%d[" % i) in seg
+            valid_now = [v for v in adv.get(i, [])[-1:] if 0 < v < 256]
+            asked = [x for x in opname[3:].split(":")[0].split(",") if x]
+            got = [m.group(3) for m in J_RE.finditer(seg) if int(m.group(1)) == i]
+            if conn_alive and valid_now and len(got) != len(asked):
+                viol.append(("request-unanswered", "after '%s' the peer's %d ut_metadata request(s) got %d repl(y/ies)" % (opname, len(asked), len(got))))
+        for m in J_RE.finditer(seg):
+            i, eid = int(m.group(1)), int(m.group(2))
+            valid = [v for v in adv.get(i, []) if 0 < v < 256]
+            if eid == 0 or eid not in valid:
+                viol.append(("ext-id-not-advertised", "after '%s' a ut_metadata reject was written with id %d to peer %d which advertised ut_metadata=%s" % (opname, eid, i, adv.get(i))))
         for m in Q_RE.finditer(seg):
             i, eid = int(m.group(1)), int(m.group(2))
             valid = [v for v in adv.get(i, []) if 0 < v < 256]
@@ -682,6 +720,8 @@ def oracle(case, impl):
     if case.startswith("U "):
         return unit_oracle(case, impl)
     viol = []
+    if impl == "HANG":
+        return [("hang", "the implementation did not finish this case within the per-case watchdog (30 s)")]
     if "ERR:internal" in impl:
         viol.append(("up-extension-internal-error", "an internal_error escaped the library's event loop (the client would abort) after: %s" % impl[-200:]))
     elif impl.startswith("CRASH") or "ERR:" in impl or impl in ("BADCASE", "MISSING"):
